@@ -503,6 +503,62 @@ fn c16_malformed(rep: &mut Report) {
         }
     });
     rep.count("c16.malformed-exports", 1);
+    // "skipped" means skipped entirely: every export of up to 3 entries over {PUBLISH q1 id1, PUBLISH q2 id1,
+    // PUBLISH q0, PUBREL id1, PUBLISH q1 id2} leaves the object exactly as the export without the skipped
+    // entries does (first entry per identifier wins, QoS 0 entries never count)
+    let mut n_exports = 0u64;
+    for ver in [Ver::V4, Ver::V5] {
+        let kinds: Vec<(u8, u32)> = vec![(1, 1), (2, 1), (0, 0), (3, 1), (1, 2)];
+        let mut seqs: Vec<Vec<usize>> = vec![];
+        for a in 0..kinds.len() {
+            seqs.push(vec![a]);
+            for b in 0..kinds.len() {
+                seqs.push(vec![a, b]);
+                for c in 0..kinds.len() {
+                    seqs.push(vec![a, b, c]);
+                }
+            }
+        }
+        for sq in seqs {
+            n_exports += 1;
+            let kinds2 = kinds.clone();
+            let sq2 = sq.clone();
+            let r = guarded(move || {
+                let mk = |k: (u8, u32)| -> GenericStorePacket<u16> {
+                    let p: GenericPacket<u16> = if k.0 == 3 {
+                        bridge::build::<u16>(&AP::Ack { ver, kind: AckKind::Pubrel, pid: k.1, code: None, props: None }).ok().unwrap()
+                    } else {
+                        bridge::build::<u16>(&AP::Publish { ver, dup: k.0 > 0, qos: k.0, retain: false, topic: b"a".to_vec(), pid: if k.0 > 0 { Some(k.1) } else { None }, props: vec![], payload: b"p".to_vec() }).ok().unwrap()
+                    };
+                    match p {
+                        GenericPacket::V3_1_1Publish(x) => GenericStorePacket::V3_1_1Publish(x),
+                        GenericPacket::V5_0Publish(x) => GenericStorePacket::V5_0Publish(x),
+                        GenericPacket::V3_1_1Pubrel(x) => GenericStorePacket::V3_1_1Pubrel(x),
+                        GenericPacket::V5_0Pubrel(x) => GenericStorePacket::V5_0Pubrel(x),
+                        _ => unreachable!(),
+                    }
+                };
+                let full: Vec<(u8, u32)> = sq2.iter().map(|i| kinds2[*i]).collect();
+                let mut seen = std::collections::BTreeSet::new();
+                let clean: Vec<(u8, u32)> = full.iter().copied().filter(|k| k.0 != 0 && seen.insert(k.1)).collect();
+                let mut a = ConnBox::<u16>::new(RoleK::Client, Some(ver));
+                a.restore_packets(full.iter().map(|k| mk(*k)).collect());
+                let mut b = ConnBox::<u16>::new(RoleK::Client, Some(ver));
+                b.restore_packets(clean.iter().map(|k| mk(*k)).collect());
+                (full, clean, a.snap(), b.snap())
+            });
+            match r {
+                Err(m) => rep.violation(Violation { rule: "c16.malformed-export".into(), sig: format!("c16.malformed-export|{}", crate::util::panic_sig(&m)), detail: format!("malformed export {sq:?}: {m}"), config: "c16 malformed exports".into(), history: vec![json!(format!("restore entries {sq:?} of [q1 id1, q2 id1, q0, PUBREL id1, q1 id2] ({ver:?})"))] }),
+                Ok((full, clean, sa, sb)) => {
+                    if sa != sb {
+                        let (names, text) = debug_diff(&sa, &sb);
+                        rep.violation(Violation { rule: "c16.skipped-entry-leaves-traces".into(), sig: format!("c16.skipped-entry-leaves-traces|{}", names.join("+")), detail: format!("restoring the export {full:?} ((QoS | 3 = PUBREL, id) per entry) must equal restoring {clean:?} (duplicate identifiers and QoS 0 entries skipped), but the objects differ in {names:?}: {text}"), config: "c16 malformed exports".into(), history: vec![json!(format!("restore_packets({full:?}) vs restore_packets({clean:?}) into fresh {ver:?} clients"))] });
+                    }
+                }
+            }
+        }
+    }
+    rep.count("c16.malformed-exports-enumerated", n_exports);
     if let Err(m) = r {
         rep.violation(Violation { rule: "c16.malformed-export".into(), sig: format!("c16.malformed-export|{}", crate::util::panic_sig(&m)), detail: format!("malformed export (duplicate ids, QoS 0 entry): {m}"), config: "c16 malformed exports".into(), history: vec![json!("restore [PUBLISH q1 id1, PUBLISH q0, PUBLISH q2 id1 (dup id), PUBLISH q2 id2, PUBREL id3, PUBREL id3 (dup id)]")] });
     }
